@@ -124,7 +124,7 @@ func (u *Unit) loopEnter(st *State, lp *Loop) {
 		}
 		switch p.kind {
 		case pCell:
-			if p.cell.promoted != nil {
+			if st.promo[p.cell] {
 				if _, isStruct := p.cell.typ.Underlying().(*types.Struct); isStruct && !isOpaqueStruct(p.cell.typ) {
 					u.structHeaps(eff, p.cell.typ)
 				} else {
@@ -263,6 +263,7 @@ func (u *Unit) loopBackEdge(st *State, lp *Loop) {
 		}
 	}
 	first := lp.header.Instrs[0]
+	u.addCover(st, tag+".backedge", "", "the loop body can complete an iteration under the invariant")
 	env := u.newEnv(st)
 	env.head = lc.head
 	env.pre = lc.pre
